@@ -304,9 +304,45 @@ def rule_h5(F):
     return r
 
 
+def rule_h7(F):
+    """The code pointer never travels without its keep-alive: every closure or struct that stores a handle's `func` pointer
+    (closures capture only the fields they use) also stores the handle's module reference - or the whole handle."""
+    r = RuleResult("C11.H7", "wherever a TypedFunc's code pointer is captured or stored, the module handle is captured with it", floor=16)
+    for b in F.all_bodies():
+        if not b.mir or "::tests::" in b.path or not b.file.startswith("src/"):
+            continue
+        ls = b.mir["locals"]
+        tf = [i for i in range(1, b.mir["argc"] + 1) if "codegen::TypedFunc<" in ls[i]["ty"]]
+        if not tf:
+            continue
+        defs = None
+        n = 0
+        for bi, blk in enumerate(b.blocks):
+            for st in blk["stmts"]:
+                if st["k"] != "assign" or st["rv"]["k"] != "agg" or st["rv"].get("ak") not in ("closure", "adt"):
+                    continue
+                if st["rv"].get("adt", "").endswith("codegen::TypedFunc"):
+                    continue
+                defs = defs or mir.Defs(b)
+                keys = [mir.origin_key(b, defs, o[1]) for o in st["rv"]["ops"] if mir.is_place_op(o)]
+                roots_ = {"arg%d" % i for i in tf}
+                mine = [k for k in keys if k.split(".")[0] in roots_]
+                if not mine:
+                    continue
+                n += 1
+                whole = any(k in roots_ for k in mine)
+                has_func = any(k.endswith(".func") for k in mine)
+                has_mod = any(k.endswith("._module") for k in mine)
+                r.inst("%s capture #%d" % (b.path, n), {"fn": b.path, "captures": mine})
+                if has_func and not (whole or has_mod):
+                    r.bad(b.path, "code pointer captured without the module", relfile(b.file), st["line"],
+                          "the closure/struct keeps the handle's code pointer (%s) but not its module reference: once the package and the other handles are gone the JIT memory, constants and registered closures are freed while this value can still call into them" % ", ".join(mine))
+    return r
+
+
 def rules(ctx):
     F = ctx["F"]
-    return [rule_h1(F), rule_h2(F), rule_h3(F), rule_h4(F), rule_h5(F)]
+    return [rule_h1(F), rule_h2(F), rule_h3(F), rule_h4(F), rule_h5(F), rule_h7(F)]
 
 
 def thorough_rules(ctx):
